@@ -12,7 +12,7 @@ import (
 	"strconv"
 
 	"verif/harness/internal/core"
-	_ "verif/harness/props"
+	"verif/harness/props"
 )
 
 func main() {
@@ -48,6 +48,11 @@ func main() {
 			os.Exit(2)
 		}
 		os.Exit(core.ChildMain(os.Args[2], os.Args[3], os.Args[4]))
+	case "c12work":
+		if len(os.Args) < 3 {
+			os.Exit(2)
+		}
+		os.Exit(props.C12WorkMain(os.Args[2]))
 	case "replay":
 		if len(os.Args) < 3 {
 			os.Exit(2)
